@@ -159,7 +159,12 @@ func (pool *TxPool) delTx(tx *types.Transaction) {
 	// delete indexes of sub transactions in box transaction
 	if tx.Type() == params.BoxTx {
 		for _, subTx := range getSubTxs(tx) {
-			delete(pool.hashIndexMap, subTx.Hash())
+			subHash := subTx.Hash()
+			// the index may point at the sub transaction pending on its own (or inside another box). Remove that entry too, or it stays in the list without an index
+			if index, ok := pool.hashIndexMap[subHash]; ok {
+				pool.txs[index] = nil
+				delete(pool.hashIndexMap, subHash)
+			}
 		}
 	}
 }
